@@ -9,7 +9,7 @@ out=['# Seeded property-breaking changes','',
 'Each directory holds a change to johnkerl/miller written by an independent agent that saw ONLY the text of the property (and a scratch worktree of the repository), never anything from /verif: `patch.diff`, the author\'s demonstration (`demo.sh`, exits 1 with the change and 0 without), and `meta.json` (which property it breaks, what it needs in order to manifest, what was run). Each was confirmed by `lib/run-seeded.sh`: the patch applies to HEAD in a scratch worktree, compiles, the pinned unit packages pass, the demonstration fails with it and passes without it; then the named check(s) were run against the changed tree (`VERIF_REPO=<worktree> bin/verif check <ID> --tier quick`). None of these changes is ever committed to /repo.','',
 '| change | property | what it does | caught by (check: violation group) | note |','|---|---|---|---|---|']
 for r in rows: out.append('| '+' | '.join(r)+' |')
-def asw(note): return note.startswith('caught as written') or 'second-round change; caught as written' in note or note.startswith('not C') and 'caught as written' in note
+def asw(note): return 'caught as written' in note and 'missed at first' not in note and not note.upper().startswith('MISSED')
 n=len(rows); first=sum(1 for r in rows if asw(r[4]))
 import collections
 tal=collections.OrderedDict()
